@@ -187,7 +187,30 @@ def run_harness(h, workdir, timeout=600, trace=False):
                     f.close()
             if gate is None:
                 time.sleep(2)
-    rc, so, se, secs = run(launch, timeout=timeout)
+    if trace:
+        # a counterexample trace of a large harness can be gigabytes of JSON: keep it out of memory unless it is small
+        import subprocess
+        tf = out + ".json"
+        t1 = time.time()
+        try:
+            with open(tf, "wb") as fo:
+                p = subprocess.run(launch, stdout=fo, stderr=subprocess.PIPE, timeout=timeout)
+            rc, se = p.returncode, p.stderr.decode(errors="replace")
+        except subprocess.TimeoutExpired:
+            rc, se = None, ""
+        secs = time.time() - t1
+        size = os.path.getsize(tf) if os.path.exists(tf) else 0
+        if size > int(os.environ.get("VERIF_MAX_TRACE_MB", "400")) << 20:
+            so = ""
+            se += "\ntrace output too large to load (%d MB)" % (size >> 20)
+        else:
+            so = open(tf, errors="replace").read() if size else ""
+        try:
+            os.remove(tf)
+        except OSError:
+            pass
+    else:
+        rc, so, se, secs = run(launch, timeout=timeout)
     if gate is not None:
         gate.close()
     res = dict(harness=name, seconds=time.time() - t0, cbmc_seconds=secs, cbmc_cmd=" ".join(cmd), checks=[],
